@@ -10,6 +10,7 @@ import (
 func init() {
 	vpRegister("vpH_C07_dv", vpH_C07_dv)
 	vpRegister("vpH_C07_chunks", vpH_C07_chunks)
+	vpRegister("vpH_C07_longterms", vpH_C07_longterms)
 }
 
 // vpDvDoc builds a document whose dv fields "b" and "e" carry the chosen term sets.
@@ -199,4 +200,49 @@ func vpH_C07_chunks() {
 		vpDvVisit("chunks", r, uint64(n), []string{"b"}, exp)
 	}
 	vpReach("C07 chunks end")
+}
+
+// C07 with long doc-value terms: documents whose terms in a doc-value field
+// total 0 / 10 / 31..34 / 70 / 300 bytes next to each other; built, loaded, merged.
+func vpH_C07_longterms() {
+	mkTerm := func(n int, c byte) []byte {
+		b := make([]byte, n)
+		for i := range b {
+			b[i] = c
+		}
+		return b
+	}
+	sizes := [][]int{{31, 5}, {32, 1}, {33, 7}, {34, 2}, {70, 3}, {300, 1}, {10, 10}}[vpChoice("sizes", 7)]
+	var docs []*vpDoc
+	for d := 0; d < 4; d++ {
+		n := sizes[d%2]
+		doc := &vpDoc{}
+		if !(d == 3 && vpChoice("last-doc-without-values", 2) == 1) {
+			t1 := mkTerm(n/2, byte('a'+d))
+			t2 := mkTerm(n-n/2-1, byte('m'+d))
+			f := &vpField{name: "b", dv: true, length: 2}
+			if len(t2) > 0 {
+				f.terms = []*vpTerm{{term: t2, freq: 1}, {term: t1, freq: 1}}
+			} else {
+				f.terms = []*vpTerm{{term: t1, freq: 1}}
+			}
+			doc.fields = append(doc.fields, f)
+		}
+		docs = append(docs, doc)
+	}
+	seg := vpBuild(docs, 1025)
+	switch vpChoice("kind", 3) {
+	case 1:
+		seg = vpLoad(vpPersist(seg))
+	case 2:
+		mb, _ := vpMergeBytes([]*Segment{seg}, []*roaring.Bitmap{nil}, 1025)
+		seg = vpLoad(mb)
+	}
+	exp := vpBuildExpect(docs, nil)
+	r, err := seg.DocumentValueReader([]string{"b"})
+	vpMust(err, "DocumentValueReader")
+	for _, n := range []uint64{1, 0, 2, 3, 1} {
+		vpDvVisit("long terms", r, n, []string{"b"}, exp)
+	}
+	vpReach("C07 longterms end")
 }
